@@ -130,7 +130,7 @@ let run_S caseno tk =
   let nl = next_int tk in
   let levels = take_n tk nl (fun tk -> let r = next_int tk in take_n tk r read_slice) in
   let labels = "sp0" :: List.concat (List.init nl (fun l -> let s = string_of_int (l + 1) in
-     List.map (fun x -> x ^ s) ["rk"; "ly"; "se"; "e"; "st"; "of"; "sp"; "h"; "ad"; "sa"])) in
+     List.map (fun x -> x ^ s) ["rk"; "ly"; "se"; "e"; "st"; "of"; "sp"; "h"; "ad"; "sa"; "ac"])) in
   Printf.printf "S %d %s\n" caseno (pr_transcript labels (s_chain sv levels))
 
 (* family A: prog <mapping value tokens> nidx idx... *)
